@@ -134,6 +134,9 @@ func checkC19(w *World, r *Report) {
 				if al, isAlloc := root.(*ssa.Alloc); isAlloc && (isCtor || freshLiteral(al)) {
 					continue
 				}
+				if isCanonicalRespelling(st, fa) {
+					continue // the same address in its canonical spelling: the identity does not change
+				}
 				construct := fmt.Sprintf("%s:%s.%s", fnName(fn), tn, field)
 				reason, mutable := mutableFields[tn][field]
 				if field == "Id" && !genesisTree[fn] {
@@ -242,6 +245,24 @@ func checkC19(w *World, r *Report) {
 		"AuctionSeq is written with "+strings.Join(seqWrites, ", ")+": auction ids can repeat")
 	r.Check(bidSeqOK && len(bidSeqWrites) == 1, "ID-MONO", "BidSeq:increment", keeperPath, "the per-auction bid counter is written at one site, as stored value + 1 under the same auction id",
 		bidSeqWhy+" "+strings.Join(bidSeqWrites, ", "))
+	// the counters survive an export/import: genesis import writes them (by drawing the next value per imported record, or
+	// by setting them), otherwise the first record created after a restart reuses the id of an imported one
+	if initG, _ := w.genesisFns(); initG != nil {
+		wrote := map[string]bool{}
+		for fn := range w.reachableFrom(initG) {
+			for _, b := range fn.Blocks {
+				for _, in := range b.Instrs {
+					if e := w.EffectOf(in); e != nil && e.Kind == EffStoreWrite && (e.Coll == "BidSeq" || e.Coll == "AuctionSeq") {
+						wrote[e.Coll] = true
+					}
+				}
+			}
+		}
+		for _, c := range []string{"AuctionSeq", "BidSeq"} {
+			r.Check(wrote[c], "ID-MONO", "genesis:"+c+"-restored", w.pos(initG.Pos()), "genesis import advances/sets "+c+" so that ids drawn after an import are fresh",
+				"genesis import never writes "+c+": after an export/import the next id drawn repeats the id of an imported record, which is then overwritten (its reservation stays in escrow and is paid to the wrong party)")
+		}
+	}
 	// ids assigned to new records
 	ms := w.msgServerMethods()
 	for _, m := range []string{"CreateFixedPriceAuction", "CreateBatchAuction"} {
@@ -379,4 +400,27 @@ func (p *prefixCollector) OnInstr(x *Explorer, fr *Frame, in ssa.Instruction, st
 		p.seen[key] = "the prefix is the id " + ident + ", which is not the auction this entry point operates on"
 	}
 	return st
+}
+
+// isCanonicalRespelling: `x.F = AccAddressFromBech32(x.F).String()` — the stored value is the canonical rendering of the
+// address parsed from the very field it overwrites.
+func isCanonicalRespelling(st *ssa.Store, fa *ssa.FieldAddr) bool {
+	c, ok := st.Val.(*ssa.Call)
+	if !ok || callKey(&c.Call) != sdkPath+".AccAddress.String" || len(c.Call.Args) != 1 {
+		return false
+	}
+	ex, ok := c.Call.Args[0].(*ssa.Extract)
+	if !ok || ex.Index != 0 {
+		return false
+	}
+	pc, ok := ex.Tuple.(*ssa.Call)
+	if !ok || callKey(&pc.Call) != sdkPath+".AccAddressFromBech32" || len(pc.Call.Args) != 1 {
+		return false
+	}
+	l, ok := pc.Call.Args[0].(*ssa.UnOp)
+	if !ok {
+		return false
+	}
+	src, ok := l.X.(*ssa.FieldAddr)
+	return ok && src.X == fa.X && src.Field == fa.Field
 }
